@@ -154,11 +154,28 @@ def interp_exact(pattern, mode, obj_frame="map"):
     f3 = FrameGroundTruth(T3, "2", [], transforms=[_ego(e2, (1, 0, 0, 1))])
     frames = [f1, f2, f3]
     snapshot = [(id(f), [id(o) for o in f.objects], f.unix_time) for f in frames]
+    ego_before = [(id(f.transforms[EGO2MAP]), [v for v in f.transforms[EGO2MAP].position]) for f in frames]
     res = get_interpolated_now_frame(frames, q, tol)
 
     parts = {}
     parts["inputs_untouched"] = all(id(f) == i and [id(o) for o in f.objects] == objs and f.unix_time == t
                                     for f, (i, objs, t) in zip(frames, snapshot))
+    parts["loaded_ego_poses_untouched"] = L.And(*[
+        L.And(id(f.transforms[EGO2MAP]) == i, *[L.close(a, b, 0) for a, b in zip(f.transforms[EGO2MAP].position, pos)])
+        for f, (i, pos) in zip(frames, ego_before)])
+    # the same query again on the same frame list gives the same answer (no state carried between lookups)
+    res2 = get_interpolated_now_frame(frames, q, tol)
+    same_kind = (res is None) == (res2 is None) and (res is None or any(res is f for f in frames) == any(res2 is f for f in frames))
+    if same_kind and res is not None and not any(res is f for f in frames):
+        o1 = sorted(((o.uuid, list(o.state.position)) for o in res.objects), key=lambda t: t[0])
+        o2 = sorted(((o.uuid, list(o.state.position)) for o in res2.objects), key=lambda t: t[0])
+        same_kind = len(o1) == len(o2) and L.And(*[L.And(a[0] == b[0], *[L.close(x, y, 1e-9) for x, y in zip(a[1], b[1])])
+                                                   for a, b in zip(o1, o2)],
+                                                 *[L.close(x, y, 1e-9) for x, y in zip(res.transforms[EGO2MAP].position,
+                                                                                       res2.transforms[EGO2MAP].position)])
+    elif same_kind and res is not None:
+        same_kind = res is res2
+    parts["repeated_lookup_same_answer"] = same_kind
     # which neighbours does the specification select?
     times = [T1, T2, T3]
     between = L.And(q >= T1, q < T2)
